@@ -70,7 +70,10 @@ class FitWorld:
             self.df = df
             self.data = workload.to_data(df, cfg["kind"])
             self.dataset = Dataset(self.data)
-            self.model = workload.make_model(cfg["kind"], cfg["nf"])
+            mk = {}
+            if cfg.get("init_random") and workload.kind_info(cfg["kind"])["family"] != "linear":
+                mk["initialization_method"] = "random"   # (drawn from torch's generator, seeded from the plan just below / by the fit)
+            self.model = workload.make_model(cfg["kind"], cfg["nf"], source_dimension=cfg.get("sd"), **mk)
 
     # ------------------------------------------------------------------ seams
     def on_shuffle(self, lst, where):
@@ -265,6 +268,7 @@ class FitWorld:
                 self.algo = algo
                 self.constructed = True
                 if not self.model.is_initialized:
+                    torch.manual_seed(cfg["gseed"] & 0x7FFFFFFF)   # a random initialisation draws here: one integer decides it too
                     self.model.initialize(self.dataset)
                 self.state = self.model.state
                 self._emit("on_start")
@@ -299,4 +303,9 @@ def gen_fit_cfg(st: Stream, *, kinds=None, max_iter=12, allow_mixture=False) -> 
         if st.bernoulli(0.25):
             dec[str(k)] = st.choice(["accept_all", "reject_all", "alternate"])
     cfg["decisions"] = dec
+    from .stepsim import _vary_shape
+
+    _vary_shape(st, cfg)
+    if st.bernoulli(0.2):
+        cfg["ahl"] = st.choice([3, 5, 10])
     return cfg
